@@ -98,6 +98,12 @@ def gen_C01(chk):
     ws = worlds(chk, n_random=cnt(chk, 12, 40))
     for nm, net in ws:
         props = net_props(net)
+        # batches of formulae of different sizes: position i of the answer is formula i
+        for j in range(cnt(chk, 2, 6)):
+            fs = [gen.random_formula(rng, sz, props, max_vars=2) for sz in rng.sample([1, 2, 3, 4, 5, 6], rng.randint(3, 5))]
+            k = max(gen.quant_depth(f) for f in fs)
+            if len(props) * (1 + k) <= 10:
+                chk.add_eval(net, k, rng.choice(["s", "", "st", "t"]), fs, tag="mixed-batch", netname=nm)
         if len(props) <= 3:
             for f in near_pattern_formulas(props, rng):
                 chk.add_eval(net, 2, "s", [f], tag="near-pattern", netname=nm)
@@ -269,6 +275,17 @@ def gen_C03(chk):
             k = max(gen.quant_depth(f) for f in batch)
             # dirty results: bitwise over every valuation of the spare bits as well
             chk.add_eval(net, k + (1 if len(props) <= 2 else 0), "", batch, tag="dirty1", netname=nm)
+        # the shortcut patterns reaching the result bare or through operators that do not intersect
+        # with the unit again
+        st_ = ("H", "Bind", "x", None, ("U", "AX", gen.T("V", "x")))
+        at_ = ("H", "Bind", "x", None, ("U", "AG", ("U", "EF", gen.T("V", "x"))))
+        pz = gen.T("P", props[0])
+        pats = []
+        for pt in (st_, at_):
+            pats += [pt, ("U", "EF", pt), ("U", "EX", pt), ("B", "Or", pt, pz), ("B", "EU", pz, pt),
+                     ("B", "And", st_, ("U", "Not", at_))]
+        chk.add_eval(net, 1, "", pats, tag="patterns-dirty", netname=nm)
+        chk.add_eval(net, 1, "s", pats[:6], tag="patterns", netname=nm)
         # quantifiers over empty / partly empty domains reaching the result through operators
         # that do not intersect with the unit again
         p0 = gen.T("P", props[0])
@@ -451,6 +468,16 @@ def swapped_batch(rng, props, ext):
     return [f, g] if rng.random() < 0.5 else [f]
 
 
+def companion_batch(rng, props, ext):
+    """a formula whose only self-loop dependent operator is a weak / strong until or AF / EG, next to
+    companions with and without EX / AX (what is computed once per call must not depend on the batch)"""
+    p1 = gen.random_formula(rng, rng.randint(0, 2), props, max_vars=0, unops=["Not"], binops=["And", "Or"])
+    p2 = gen.random_formula(rng, rng.randint(0, 2), props, max_vars=0, unops=["Not"], binops=["And", "Or"])
+    main = rng.choice([("B", "EW", p1, p2), ("B", "AU", p1, p2), ("U", "AF", p1), ("U", "EG", p1), ("B", "EW", p1, gen.T("0"))])
+    comp = rng.choice([("U", "AX", p2), ("U", "EX", p1), ("U", "EF", p2), ("B", "EU", p1, p2), ("U", "AG", p1)])
+    return [main, comp, ("H", "Bind", "x", None, ("U", "AG", ("U", "EF", gen.T("V", "x"))))][: rng.randint(2, 3)]
+
+
 def cross_domain_batch(rng, props, ext):
     """a one-variable sub-formula shared between scopes in which its variable has the SAME domain but
     a different name, while the name it has in the other scope is restricted by another domain
@@ -489,19 +516,19 @@ def gen_C04(chk):
                 n_random=cnt(chk, 5, 20))
     for nm, net in ws:
         props = net_props(net)
-        for j in range(cnt(chk, 15, 40)):
+        for j in range(cnt(chk, 18, 48)):
             ext = rng.random() < 0.6
-            fs = [planted_batch, nested_batch, swapped_batch, cross_domain_batch, nested_batch][j % 5](rng, props, ext)
+            fs = [planted_batch, nested_batch, swapped_batch, cross_domain_batch, nested_batch, companion_batch][j % 6](rng, props, ext)
             if len(fs) < 1:
                 continue
             fs = fs[:4]
             k = max(gen.quant_depth(f) for f in fs)
             ctx = [("p", ctx_spec(rng)), ("d", ctx_spec(rng)), ("e2", ctx_spec(rng))] if ext else []
-            if ext and j % 5 in (1, 4) and rng.random() < 0.5:
+            if ext and j % 6 in (1, 4) and rng.random() < 0.5:
                 # domains that are empty for some colours only
                 ctx = [("p", ctx_spec(rng)), ("d", rng.choice(["k%d.1.2", "k%d.1.4", "r%d.1.4"]) % rng.randint(1, 10 ** 6)),
                        ("e2", ctx_spec(rng))]
-            if ext and j % 5 == 3 and rng.random() < 0.7:
+            if ext and j % 6 == 3 and rng.random() < 0.7:
                 # the two domains differ a lot (disjoint, or one literal each)
                 a = rng.choice(props)
                 b = rng.choice(props)
@@ -899,6 +926,15 @@ def gen_C18(chk):
                 f = ("B", "AW", f, gen.T("P", rng.choice(props)))
             a = chk.add_eval(net, 0, "u", [f], tag="unsafe-aw", netname=nm)
             b = chk.add_eval(net, 0, "", [f], tag="standard", netname=nm)
+            chk.cases[a]["pair"] = b
+        # sub-formulae with two variables in swapped roles (fragment operators only)
+        V = lambda v: gen.T("V", v)
+        for core in [lambda u, v: ("H", "Jump", u, None, ("U", "Not", V(v))),
+                     lambda u, v: ("H", "Jump", u, None, ("B", "And", ("U", "Not", V(v)), ("U", "AG", ("U", "EF", V(u))))),
+                     lambda u, v: ("U", "EF", ("B", "And", V(u), ("U", "Not", V(v))))]:
+            f = ("H", "Exists", "x", None, ("H", "Exists", "y", None, ("B", "And", core("x", "y"), core("y", "x"))))
+            a = chk.add_eval(net, 2, "u", [f], tag="unsafe-swapped", netname=nm)
+            b = chk.add_eval(net, 2, "", [f], tag="standard", netname=nm)
             chk.cases[a]["pair"] = b
         # the attractor pattern is in the fragment (no EX-based operator in it)
         att = ("H", "Bind", "x", None, ("U", "AG", ("U", "EF", gen.T("V", "x"))))
